@@ -199,6 +199,16 @@ UNITS['U02b'] = dict(
     assumptions=['shims: StringColBuffer and RawVal reduced to stand-ins (only stored, never inspected by the null-map code)'],
     not_covered=['push_floats / push_strings / finalize'])
 
+UNITS['U06k'] = dict(
+    kind='kani', crate='kani/U06', needs_lock=True, timeout_s=900,
+    title='BOUNDED: InverseDictLookup::execute (R6) + real comparison kernels on dictionary indices: string comparisons against constants present in / absent from a sorted dictionary (3 entries <= 1 byte)',
+    path_includes=['src/engine/operators/comparison_operators.rs'],
+    harnesses=[dict(name='proofs::str_%s' % r, bounded='3 dictionary entries and constant of <= 1 ASCII byte, unwind 5', unwind=5, clause='d[i] %s c == perform(i, inverse_dict_lookup(d, c))' % sym, fn='InverseDictLookup::execute + comparison kernel') for r, sym in (('eq', '='), ('ne', '<>'), ('lt', '<'), ('le', '<='), ('gt', '>'), ('ge', '>='))] + [
+               dict(name='proofs::vx_canary', expect_fail=True)],
+    assumptions=['registry scan (syntactic, //@scan): an operator is obliged to commute with the constant translation only if FUNCTION2_REGISTRY routes its (String, String) signature through Function2::comparison_op (encoding_invariance = true)',
+                 'dictionary entries are sorted and distinct (mapping.sort_unstable() after a HashSet, A-std-sort)'],
+    not_covered=['dictionary construction (fast_build_string_column)', 'LIKE / regex'])
+
 PROPS = {
     'C12': dict(level='other', units=['U13k', 'U21k'],
                 level_text='complete Kani proofs of the LIMIT/OFFSET row-window arithmetic (never more rows than LIMIT, no panic for any limit/offset/length); bounded Kani check that LIMIT/OFFSET literals give an error value instead of a panic',
@@ -241,7 +251,7 @@ PROPS = {
                 level_note='std sort_by/sort_unstable_by, the top-n driver and the planner choice between sort and top-n are not covered',
                 technique='contract-based deductive verification (Verus + Kani) of extracted functions',
                 assumptions=[], not_covered=['SortBy*::execute (std sort)', 'TopN::execute/finalize']),
-    'C03': dict(level='proof', units=['U01', 'U05k', 'U07k', 'U08v', 'U19'],
+    'C03': dict(level='proof', units=['U01', 'U05k', 'U06k', 'U07k', 'U08v', 'U19'],
                 level_text='complete Kani proofs of comparison kernels and constant translation; Verus proof of null bitmap primitives',
                 level_note='compile_expr glue, LIKE/regex, string dictionary comparisons not covered yet',
                 technique='contract-based deductive verification (Kani complete harnesses + Verus) of extracted / path-included real code',
